@@ -199,6 +199,10 @@ def run_engine(ctx, cfg, flags, es, ivs):
                 return 'tag<%d>' % data
         CTX['tag_serializer'] = TagSerializer()
         procs['up'] = UnitsProc({'name': 'up'})
+        from vivarium.library.units import units as _units
+        # the initial value arrives in a compatible unit other than the
+        # declared one (it is not converted until the first update)
+        CTX['units_initial_state'] = {'u': {'mass': 2000.0 * _units.mg}}
         extra_topology['up'] = {'u': ('u',)}
     # the initial emit happens inside the constructor: give the hook access
     holder = {}
@@ -214,7 +218,8 @@ def run_engine(ctx, cfg, flags, es, ivs):
         topology={**{n: {'s': ('s',), 'r': ('r',), 'b': ('b',),
                          'sd': ('s',)} for n in names},
                   'last': {'s': ('s',)}, **extra_topology},
-        emitter=emitter, emit_step=es, display_info=False, **kwargs)
+        emitter=emitter, emit_step=es, display_info=False,
+        initial_state=CTX.get('units_initial_state') or {}, **kwargs)
     for j, iv in enumerate(ivs):
         e.run_for(iv, force_complete=(j == len(ivs) - 1))
     return e, recs
@@ -359,10 +364,13 @@ def body(ctx, cfg):
                 from vivarium.library.units import units
                 back = deserialize_value(row[p])
                 q = exp[p]
+                # (the store may still hold the initial value in the units it
+                # was given in; the row is in the declared units)
                 content.append(isinstance(row[p], str) and
                                row[p].startswith('!units[') and
-                               back.units == units.g and q.units == units.g
-                               and abs(back.magnitude - q.magnitude) < 1e-9)
+                               back.units == units.g and
+                               abs(back.magnitude -
+                                   q.to(units.g).magnitude) < 1e-9)
             elif p == ('u', 'tag'):
                 content.append(row[p] == 'tag<%d>' % exp[p])
             elif p in exp:
@@ -408,7 +416,9 @@ def body(ctx, cfg):
             got = stubs.leaves(data.get(t, {'missing': True}))
             exp = {p: v for p, v in r['snap'].items() if flags.get(p, False)}
             if cfg.get('units'):
-                exp[('u', 'mass')] = '!units[%s]' % str(r['snap'][('u', 'mass')])
+                from vivarium.library.units import units as _u
+                exp[('u', 'mass')] = '!units[%s]' % str(
+                    r['snap'][('u', 'mass')].to(_u.g))
                 exp[('u', 'tag')] = 'tag<%d>' % r['snap'][('u', 'tag')]
             ok.append(set(got) == set(exp))
             for p in got:
